@@ -11,6 +11,8 @@ sql::state::AggregateState is the one accumulator behind HashAggregate / GROUP B
  G3 NULL-IGNORED        update: in the SUM/AVG/MIN/MAX arms every store to the accumulator (including AVG's row count) sits under the
                         Int or Float arm of a match on the argument value: a NULL argument changes nothing.
  G4 ARMS-COMPLETE       both functions have an arm for every AggregateFunction variant.
+ G8 EMPTY-GROUP-ONLY-UNGROUPED  the one group an un-grouped aggregate yields over an empty input is created only after every
+                        grouping-key field of the hash-aggregate state (group_by, group_by_exprs) has been tested.
 Numeric results, grouping keys and HAVING evaluation are NOT decided.
 """
 from model import CheckError, operand_place, place_fields
@@ -156,6 +158,7 @@ def run(ctx):
            % ("argument" if not reads_arg else "DISTINCT flag"), h.loc())
     group_key_positional(ctx)
     unique_is_not_notnull(ctx)
+    empty_group_only_ungrouped(ctx)
 
 
 def _fields_in(s):
@@ -254,3 +257,39 @@ def unique_is_not_notnull(ctx):
     ctx.ob("G7.UNIQUE-IS-NOT-NOT-NULL", "is_simple_count_star", bad is None, "the shortcut never equates UNIQUE with NOT NULL" if bad is None else
            "%s treats Constraint::Unique like Constraint::NotNull while deciding whether COUNT(col) may be answered from the table's row count: "
            "a nullable UNIQUE column is counted with its NULLs" % bad.id.rsplit("::", 1)[-1], (bad or root).loc())
+
+
+def empty_group_only_ungrouped(ctx):
+    """G8 EMPTY-GROUP-ONLY-UNGROUPED: over an empty input an aggregate without GROUP BY yields one row, with GROUP BY none.  The hash
+    aggregate creates that one group (create_initial_states under a `groups.is_empty()` test) only after testing every field of its
+    state that carries grouping keys (the fields of HashAggregateState named group_by*): a query grouped by an expression has an
+    empty `group_by` column list and its keys in `group_by_exprs`."""
+    import dmlrules
+    m = ctx.m
+    adt = m.adts.get("sql::state::HashAggregateState")
+    if not adt:
+        raise CheckError("HashAggregateState not found")
+    keys = sorted(f_[0] for f_ in adt["variants"][0]["fields"] if f_[0].startswith("group_by"))
+    if len(keys) < 2:
+        raise CheckError("grouping-key fields of HashAggregateState: %s" % keys)
+    n = 0
+    for f in sorted(m.fns.values(), key=lambda f: f.id):
+        for c in f.calls:
+            if not c.name.endswith("AggregateState::create_initial_states"):
+                continue
+            tested = set()
+            for d in f.dominators().get(c.bb, ()):
+                t = f.blocks[d]["t"]
+                if t[0] == "switch" and t[2] == "bool" and d != c.bb:
+                    q = operand_place(t[1])
+                    if q is not None:
+                        tested |= {x.rsplit("::", 1)[-1] for x in dmlrules._data_fields(f, q[0])}
+            if "groups" not in tested:
+                continue     # a group created for an input row, not the empty-input group
+            n += 1
+            missing = [k for k in keys if k not in tested]
+            ctx.ob("G8.EMPTY-GROUP-ONLY-UNGROUPED", "%s@L%d" % (f.id.rsplit("::", 1)[-1], n), not missing,
+                   "the empty-input group is created only after testing %s" % keys if not missing else
+                   "the empty-input group is created without testing %s: a query grouped by those keys returns a phantom row over an empty "
+                   "input" % missing, c.loc())
+    ctx.floor("G8.empty_input_group_sites", n, 1)
